@@ -22,6 +22,7 @@ class Program:
         self.pkgs = data["packages"]
         self.funcs = {}
         self.globals = {}
+        self.opaque = frozenset()
         for p, pk in self.pkgs.items():
             for n, f in pk["funcs"].items():
                 self.funcs[n] = f
@@ -39,7 +40,16 @@ class Program:
             e = self.types[t]
         return t, e
 
+    def view(self, opaque):
+        """same program, with the given named types treated as opaque leaves"""
+        import copy
+        v = copy.copy(self)
+        v.opaque = frozenset(opaque)
+        return v
+
     def kind(self, t):
+        if t in self.opaque:
+            return "opaque"
         return self.under(t)[1]["kind"]
 
     def int_info(self, t):
@@ -69,6 +79,8 @@ class Program:
 
     def leaves(self, t, prefix=()):
         """list of (path, leaf type) for a value of type t; leaves are basic / ptr / slice / func."""
+        if t in self.opaque:
+            return [(prefix, t)]
         _, e = self.under(t)
         k = e["kind"]
         if k == "struct":
